@@ -33,7 +33,7 @@ PROPERTY = {
     "trusted_base": ["CPython executes the real decoders and lifters; the sampling and the structural checks are written in "
                      "props/C14.py"],
     "assumptions": ["seeded family: 14 architectures / modes x 40 chunks x 250 strings quick (x 400 chunks thorough)",
-                    "curated family: every vector of test/arch/{x86,arm,aarch64,mips32,ppc32,msp430}/arch.py (read with ast) and all its boundary variants (last 1 / 2 / 4 / 8 bytes replaced by limits of every narrower width; quick: every sixth group of 10 vectors)",
+                    "curated family: every vector of test/arch/{x86,arm,aarch64,mips32,ppc32,msp430}/arch.py (read with ast) and all its boundary variants (last 1 / 2 / 4 / 8 bytes replaced by limits of every narrower width)",
                     "an instruction the decoder refuses is not a case"],
 }
 
@@ -238,7 +238,7 @@ class LiftCases(BoundedContract):
             fam = family(ARCHS[a][0])
             gids = sorted(g for g, (f, _) in groups().items() if f == fam) + [""]
             ncur = (len(C15.curated(ARCHS[a][0])) + C15.CUR_CHUNK - 1) // C15.CUR_CHUNK
-            ks = list(range(n)) + [("cur", j) for j in range(ncur) if self.tier != "quick" or j % 6 == 0]
+            ks = list(range(n)) + [("cur", j) for j in range(ncur)]
             out += [(a, k, g) for k in ks for g in gids]
         return out
 
